@@ -119,7 +119,13 @@ func pduCases(r *rec, g *te.Gen, perType int, badEvery int) {
 			for k := 0; k < perType; k++ {
 				g.BadProb, g.Violated = 0, false
 				g.Rich, g.MaxList = k%2 == 1, []int{2, 5, 1, 3}[k%4] // every second value prefers content-bearing alternatives and extension values
-				if badEvery > 0 && n%badEvery == badEvery-1 {
+				g.Full = 0
+				if k == 0 {
+					g.Full = 1 // every IE alternative of the message once, every OPTIONAL present
+				} else if k == 1 {
+					g.Full, g.Rich = 2, false // every OPTIONAL absent, lists at their lower bound
+				}
+				if badEvery > 0 && n%badEvery == badEvery-1 && k >= 2 { // the full and the minimal value of each message stay within constraints
 					g.BadProb = 0.05
 				}
 				n++
@@ -177,6 +183,12 @@ func pduCases(r *rec, g *te.Gen, perType int, badEvery int) {
 		for k := 0; k < perType; k++ {
 			g.BadProb, g.Violated = 0, false
 			g.Rich, g.MaxList = k%2 == 1, []int{2, 5, 1, 3}[k%4]
+			g.Full = 0
+			if k == 0 {
+				g.Full = 1
+			} else if k == 1 {
+				g.Full, g.Rich = 2, false
+			}
 			v := reflect.New(reflect.TypeOf(tv)).Elem()
 			g.Fill(v, te.Parse("valueExt"), 1)
 			r.roundtrip(v.Type().Name(), "transfer", v, "valueExt", false)
@@ -456,6 +468,7 @@ func main() {
 	}
 	if *mode == "pdu" || *mode == "all" {
 		pduCases(r, g, per, 7)
+		g.Full, g.Rich = 0, false
 		openCases(r, g)
 	}
 	if *mode == "prim" || *mode == "all" {
